@@ -918,6 +918,12 @@ class Lower:
         if name in ('min', 'max') and len(a) == 2 and self.types.classify(qt(n))[0] == 'builtin':
             # std::min(a, b) = (b < a) ? b : a ; std::max(a, b) = (a < b) ? b : a   (scalar operands of one type, side-effect free in the rule table)
             return '((%s) < (%s) ? (%s) : (%s))' % ((a[1], a[0], a[1], a[0]) if name == 'min' else (a[0], a[1], a[1], a[0]))
+        if name == 'make_unique':
+            # std::make_unique<X>(args): creation of a writer object on the heap is left to the prelude (make_unique__<X> observes the arguments)
+            rcls, rt = self.types.classify(qt(n))
+            if rcls == 'uptr':
+                self.cur.libcalls.append('std::make_unique')
+                return 'make_unique__%s(%s)' % (re.sub(r'[^A-Za-z0-9_]', '_', self.types.mangle(rt.args[0])), ', '.join(a))
         raise LowerError("library call outside rule table: %s" % name)
 
     def ex_CXXOperatorCallExpr(self, n):
@@ -1198,10 +1204,13 @@ class Lower:
             # boost::any(const T&): tagged union constructor of the prelude
             self.cur.libcalls.append('boost::any(T)')
             return 'any__from_%s(%s)' % (self.types.mangle(qt(strip(args[0]))), self.addr(self.ex(args[0])))
-        if cls == 'handle' and not args and t.name in self.types.opaque and 'ofstream' in t.name:
+        if cls == 'handle' and not args and t.name in self.types.opaque and ('ofstream' in t.name or t.name in ('z_stream', 'z_stream_s', 'lzma_stream')):
+            # (value-initialisation of a C library struct is all-zero in C++ as well)
             # std::ofstream(): a stream that is not open and has no error state = the all-zero ghost struct of the prelude (A11)
             self.cur.libcalls.append('std::ofstream()')
             return '(%s){0}' % self.types.ctype(t)
+        if cls == 'handle' and len(args) == 1 and t.name in ('lzma_stream', 'z_stream', 'z_stream_s') and t.name in self.types.opaque:
+            return self.ex(args[0])      # copy-initialisation of a C library struct from a value of the same type (m_lzma(LZMA_STREAM_INIT))
         if cls == 'handle' or cls == 'function':
             raise LowerError("construction of library type %r" % t)
         if not args:
@@ -1209,6 +1218,8 @@ class Lower:
                 return '((%s)0)' % self.types.ctype(t)       # value-initialised iterator: compares equal to end() in the map model
             if cls == 'builtin':
                 return '((%s)0)' % self.types.ctype(t)
+            if cls == 'uptr':
+                return '((%s)0)' % self.types.ctype(t)       # std::unique_ptr(): null
             if cls in ('bt', 'vec', 'deq', 'umap', 'opt'):
                 return '(%s){0}' % self.types.ctype(t)       # empty container / disengaged optional
             raise LowerError("default construction of %s in expression position" % cls)
